@@ -3,7 +3,7 @@ import k5check
 
 
 def run(tier):
-    return k5check.run("C08", tier)
+    return k5check.run("C08", tier, k3_programs=["migration-lazy", "migration-lazy-4", "expand-vs-updates", "find-vs-rehash", "two-resizers"])
 
 
 def replay(path):
